@@ -3,6 +3,7 @@ import math
 import os
 import sys
 import tempfile
+import warnings
 
 from harness import common, obsutil
 from harness.common import coq_string, zlit
@@ -175,6 +176,26 @@ def run(ctx):
         ctx.fail("closure:%s" % how.split(" ")[0], "%s returned %s instead of a real or complex observable" % (how, type(x).__name__), {"produced_by": how, "returned": repr(x)[:200]})
         return False
 
+    # closure sweep: every operator, both orders, over {real Obs, CObs, CObs with a real part only} x {numbers of every kind, complex numbers with
+    # zero imaginary part, numpy scalars, a real-only CObs} -- the result and both parts of a complex result must be observables of the stated form
+    lay0 = obsutil.gen_layout(rng, nmin=5, nmax=12)
+    o_re, o_im, o_w = (obsutil.make_obs(pe, rng, lay0, "positive") for _ in range(3))
+    lefts = [("Obs", o_re), ("CObs", pe.CObs(o_re, o_im)), ("CObs(real-only)", pe.CObs(o_w))]
+    rights = [("int", 2), ("float", 0.5), ("complex", 1.5 + 2j), ("complex(imag=0)", complex(2.3)), ("complex(-1)", complex(-1)), ("np.complex128(imag=0)", np.complex128(0.25)),
+              ("np.float64", np.float64(1.25)), ("np.int64", np.int64(3)), ("CObs(real-only)", pe.CObs(o_w + 1.0)), ("Obs", o_w + 2.0)]
+    for (ln, a) in lefts:
+        for (rn, b) in rights:
+            for o in "+-*/":
+                for x, y, how in ((a, b, "%s %s %s" % (ln, o, rn)), (b, a, "%s %s %s" % (rn, o, ln))):
+                    try:
+                        with warnings.catch_warnings():
+                            warnings.simplefilter("ignore")
+                            r = {"+": lambda: x + y, "-": lambda: x - y, "*": lambda: x * y, "/": lambda: x / y}[o]()
+                    except Exception as e:
+                        ctx.fail("closure:raises:" + how.split(" ")[1], "arithmetic %s raised %r instead of yielding a real or complex observable" % (how, e), {"op": how})
+                        continue
+                    check_obj(r, how)
+                    ctx.case(("closure-sweep", how), nontrivial=False)
     nseq = 30 if quick else 500
     tmpd = tempfile.mkdtemp(prefix="verif_c04_")
     try:
@@ -305,6 +326,10 @@ def run(ctx):
                      (lambda: pe.cov_Obs([1.0, 2.0], [[2e-10, 5e-11], [2e-11, 1e-10]], "asymT"), "asymmetric covariance"),
                      (lambda: pe.cov_Obs([1.0, 2.0, 3.0], [[3e-13, 1e-13, 0.0], [1e-13, 2e-13, 1e-14], [0.0, -1e-14, 2e-13]], "asymU"), "asymmetric covariance"),
                      (lambda: pe.cov_Obs([1.0, 2.0], [[2e-10, -3e-10], [-3e-10, 1e-10]], "indefS"), "indefinite covariance"),
+                     # the shorthand forms (a single variance, a vector of variances) are covariance matrices too
+                     (lambda: pe.cov_Obs(1.0, -0.04, "neg0"), "indefinite covariance"),
+                     (lambda: pe.cov_Obs([1.0, 2.0], [0.1, -0.2], "neg1"), "indefinite covariance"),
+                     (lambda: pe.covobs.Covobs(1.0, [0.5, -0.5], "neg2", pos=0), "indefinite covariance"),
                      (lambda: pe.cov_Obs([1.0, 2.0], [[1.0, 0.0, 0.0], [0.0, 1.0, 0.0]], "nonsq"), "non-square covariance")):
         try:
             bad()
